@@ -226,7 +226,10 @@ def run(prop, cond, args, model=True):
     c = harness(prop).CONDS[cond]
     try:
         got, exp = c.body(e, **args, **c.fixed)
-    except Exception:  # noqa: BLE001
+    except Exception as _ex:  # noqa: BLE001
+        if os.environ.get('VF_DEBUG'):
+            import traceback
+            sys.stderr.write('VF_DEBUG exception in body: ' + ''.join(traceback.format_exception_only(type(_ex), _ex)) + ''.join(traceback.format_tb(_ex.__traceback__)[-4:]))
         # an exception the harness did not anticipate: report the inputs as a counterexample (the
         # replay on the real library decides whether it is genuine); ModelGap is a BaseException
         # and propagates (inconclusive)
